@@ -2,15 +2,21 @@
 from cvbase import *
 from plbase import *
 import plbase
+import swbase
+from swbase import AFTER_PREFIXES, model_line_after, agree_after
 
 ID = "C06"
 PROPS = ["C06", "C06Chain"]
-EXEC = ("pl", "cv")
+EXEC = ("pl", "cv", "sws")
 RULE = ("pipelines of 2..6 requests (GET/POST/HEAD, bodies read or not) answered by separate threads in permuted order with every "
         "way of finishing: respond, drop unanswered, panicking handler (unwinding drops the request), raw writer (flushed / "
         "unflushed), and sequential conversations with upgrade; the oracle counts the final responses in the client's stream "
         "against the delivered requests: one each, in order, status 500 exactly for dropped/panicked ones (no body for HEAD), the "
-        "raw bytes for the raw writer; a dropped request must not hold up the ones behind it (the run ends, nothing hangs)")
+        "raw bytes for the raw writer; a dropped request must not hold up the ones behind it (the run ends, nothing hangs). "
+        "SCHEDULED RUNS of the real writer chain (`sws`, hook H2): scripts over 2..7 writers and 1..4 threads in which writers "
+        "are dropped untouched, after a flush only, or after writes; a script in which every thread finishes its writers in "
+        "index order must run to completion under EVERY explored schedule (nothing left blocked), each writer releases its "
+        "successor exactly once, and the labels are replayed in lock-step through Conc/SeqWriter.v")
 ASSUMPTIONS = ["unwinding runs destructors (Rust's guarantee): a panicking handler drops the request"]
 
 
@@ -30,6 +36,17 @@ def gen(tier, rng):
         yield cv_line(stream, acts, extra=extra), {"n": 2, "order": "upgrade"}
     for x in gen_withheld(tier, rng):
         yield x
+    for x in swbase.gen_sws(tier, rng):
+        yield x
+
+
+_cv_oracle = oracle
+
+
+def oracle(case, obs):
+    if case.startswith("sws "):
+        return swbase.oracle(case, obs)
+    return _cv_oracle(case, obs)
 
 
 def gen_withheld(tier, rng):
@@ -47,4 +64,6 @@ def gen_withheld(tier, rng):
 
 
 def nontrivial(case, mo):
+    if case.startswith("sws "):
+        return swbase.nontrivial(case, mo)
     return "/D" in case or "/P" in case or "/W" in case or "/X" in case
